@@ -6,6 +6,7 @@ import (
 	"os"
 	"path/filepath"
 	"sort"
+	"strings"
 	"unicode/utf8"
 
 	"github.com/sourcegraph/zoekt"
@@ -288,6 +289,37 @@ func (h *harness) compoundCase(repos []repoDocs, class string) {
 		emit(fmt.Sprintf("compound shard has %d repositories, want %d", len(sh.Repos), len(reps)), "compound-repos")
 		return
 	}
+	if sharedBranchAtDifferentIndex(repos) {
+		h.w.Count("compound-shared-branch-at-different-index", 1)
+	}
+	// branch masks of the compound shard against the Lean model (`cmask`): repositories in shard order, documents in shard order
+	{
+		specByName := map[string]repoSpec{}
+		docBranches := map[string][]string{}
+		for _, rd := range repos {
+			specByName[rd.Repo.Name] = rd.Repo
+			for _, d := range rd.Docs {
+				docBranches[rd.Repo.Name+"\x00"+string(d.Name)] = d.Branches
+			}
+		}
+		var rparts, dparts []string
+		var masks []uint64
+		for _, r := range sh.Repos {
+			rparts = append(rparts, hexList(specByName[r.Name].Branches))
+		}
+		for _, d := range sh.Docs {
+			rn := ""
+			if int(d.Repo) < len(sh.Repos) {
+				rn = sh.Repos[d.Repo].Name
+			}
+			dparts = append(dparts, fmt.Sprintf("%d:%s", d.Repo, hexList(docBranches[rn+"\x00"+string(d.Name)])))
+			masks = append(masks, d.BranchMask)
+		}
+		if len(dparts) > 0 {
+			c.In = "cmask " + strings.Join(rparts, "|") + " " + strings.Join(dparts, "|")
+			c.Impl = gen.NatList(masks)
+		}
+	}
 	start := uint32(0)
 	pos := 0
 	for ri, r := range sh.Repos {
@@ -307,7 +339,7 @@ func (h *harness) compoundCase(repos []repoDocs, class string) {
 			pos++
 		}
 		// merged documents carry the effective content; expectations computed from the original specs still apply
-		if v, k := checkDocFields(sub, re.exp, &start); v != "" {
+		if v, k := checkDocFields(sub, re.exp, &start, re.spec.Branches); v != "" {
 			emit(fmt.Sprintf("repo %s: %s", r.Name, v), "compound-"+k)
 			return
 		}
@@ -320,8 +352,15 @@ func (h *harness) compoundCase(repos []repoDocs, class string) {
 		emit(v, "compound-"+k)
 		return
 	}
-	if v, k := checkAPI(s, reps, metaExpect{formatVersion: index.NextIndexFormatVersion}); v != "" {
-		emit(v, "compound-"+k)
+	var av, ak string
+	if p := safely(func() string {
+		av, ak = checkAPI(s, reps, metaExpect{formatVersion: index.NextIndexFormatVersion})
+		return "ok"
+	}); p == "panic" {
+		av, ak = "searching the compound shard panics", "search-panic"
+	}
+	if av != "" {
+		emit(av, "compound-"+ak)
 		return
 	}
 	emit("", "")
@@ -329,10 +368,24 @@ func (h *harness) compoundCase(repos []repoDocs, class string) {
 
 func (h *harness) compoundCases(r *gen.Rand, n int) {
 	for i := 0; i < n; i++ {
-		nr := gen.Pick(r, []int{1, 2, 3, 4})
+		nr := gen.Pick(r, []int{1, 2, 2, 3, 4})
 		var repos []repoDocs
 		for j := 0; j < nr; j++ {
 			rp := genRepo(r, fmt.Sprintf("crepo%d", j))
+			if j > 0 && len(rp.Branches) < 2 {
+				// later repositories of a compound shard: at least two branches, so that shared names can sit at other positions
+				rp.Branches = append([]string(nil), branchPool[:2+r.Intn(4)]...)
+			}
+			if j > 0 && r.Chance(3, 4) {
+				k := 1 + r.Intn(len(rp.Branches)-1)
+				rp.Branches = append(append([]string(nil), rp.Branches[k:]...), rp.Branches[:k]...)
+			}
+			for p, b := range rp.Branches {
+				// zoekt reads the query branch "HEAD" as "the first branch": the name stays on the first one
+				if b == "HEAD" && p > 0 {
+					rp.Branches[0], rp.Branches[p] = rp.Branches[p], rp.Branches[0]
+				}
+			}
 			rp.ID = uint32(100*i + j + 1)
 			rp.Priority = gen.Pick(r, []string{"", "1", "5", "2.5"})
 			var docs []docSpec
